@@ -1,3 +1,53 @@
-From PV Require Import Expect.Model.
-Theorem placeholder : True. Proof. exact I. Qed.
-Print Assumptions placeholder.
+(** C01 Stream conservation.  Property theorems only; proofs in Expect/SpecFacts.v (on the naive
+    reference) and Expect/Refine.v (transfer to the model of the code). *)
+From Coq Require Import ZArith NArith List Bool Arith.
+Import ListNotations.
+From PV Require Import Base.PySeq Base.Rx Base.RxFacts Expect.Model Expect.Spec Expect.Refine Expect.SpecFacts.
+
+(** For every history of expect-family calls (any searcher kind, patterns, window and timeout-0 flag per
+    call) from any reachable state over any list of transport events: the text handed back so far - each
+    call's before+after for a match, before at EOF - followed by what is still pending equals what was
+    pending at the start plus everything read since.  [re_span]: a regex match does not end before it starts. *)
+Theorem C01_history_conserves :
+  forall (rx : Type) (re_search : rx -> text -> nat -> option (nat * nat)),
+  (forall r t p a b, re_search r t p = Some (a, b) -> a <= b) ->
+  forall (cs : list (cfg rx * bool)) (s : st) (evs : list ev),
+  Forall (fun ct => wfW rx (fst ct)) cs -> Inv s ->
+  match run_calls rx re_search cs s evs with (rs, s', evs') =>
+    exists used, evs = used ++ evs' /\
+                 flat_map handed rs ++ pend s' = pend s ++ data_of used /\ Inv s'
+  end.
+Proof. exact history_conserves. Qed.
+Print Assumptions C01_history_conserves.
+
+(** One call in detail: a TIMEOUT consumes nothing (before = all pending text, which stays pending), at EOF
+    before is all pending text and the pending text is cleared, a transport error leaves everything pending. *)
+Theorem C01_call_conserves :
+  forall (rx : Type) (re_search : rx -> text -> nat -> option (nat * nat)),
+  (forall r t p a b, re_search r t p = Some (a, b) -> a <= b) ->
+  forall (c : cfg rx) (t0 : bool) (s : st) (evs : list ev), wfW rx c -> Inv s ->
+  match expect_loop rx re_search c t0 s evs with (r, s', evs') =>
+    exists used, evs = used ++ evs' /\ handed r ++ pend s' = pend s ++ data_of used /\ Inv s' /\
+    (forall i b, r = AtTimeout i b -> b = pend s' /\ pend s' = pend s ++ data_of used) /\
+    (forall i b, r = AtEof i b -> b = pend s ++ data_of used /\ pend s' = [] /\ buf s' = []) /\
+    (forall b, r = Errored b -> b = pend s' /\ pend s' = pend s ++ data_of used)
+  end.
+Proof. exact call_conserves. Qed.
+Print Assumptions C01_call_conserves.
+
+(** Assigning to the buffer attribute replaces the pending text (and re-establishes the invariant). *)
+Theorem C01_set_buffer_replaces : forall v, pend (set_buffer v) = v /\ buf (set_buffer v) = v /\ Inv (set_buffer v).
+Proof. exact set_buffer_replaces. Qed.
+Print Assumptions C01_set_buffer_replaces.
+
+(** The executable regex engine used in the correspondence satisfies the premise. *)
+Theorem C01_engine_span : forall r t p a b, rx_search r t p = Some (a, b) -> a <= b.
+Proof. exact rx_search_span. Qed.
+Print Assumptions C01_engine_span.
+
+(** non-vacuity: a zero-width, end-anchored pattern on pending text "abc" keeps the text in before *)
+Example C01_end_anchor :
+  fst (fst (expect_loop rx rx_search {| ckind := KRe; pats := [PRe Eol]; W := None |} false
+              {| pend := [97; 98; 99]%N; buf := [97; 98; 99]%N |} []))
+  = Matched 0 [97; 98; 99]%N [] (3, 3).
+Proof. vm_compute. reflexivity. Qed.
